@@ -209,7 +209,7 @@ def judgeHist : P Verdict := do
     | o => throw s!"hist: unknown op {o}"
     expect "|"
     if (← peek?) == some "panic" then
-      let _ ← tok
+      set ([] : List String)
       return { prop := false, corr := false, msg := s!"step {k} {op}: implementation panicked; model={showCSM m}" }
     let r : CSM Float ← csm
     let cap ← nat
